@@ -396,10 +396,14 @@ class HistogramND(HistogramBase):
             raise ValueError(
                 f"Expecting array with {self.ndim} columns, {values_array.shape[1]} found."
             )
-        if dropna:
-            values_array = values_array[~np.isnan(values_array).any(axis=1)]
         if weights is not None:
             weights = np.asarray(weights)
+        if dropna:
+            array_mask = ~np.isnan(values_array).any(axis=1)
+            values_array = values_array[array_mask]
+            if weights is not None and weights.shape == array_mask.shape:
+                weights = weights[array_mask]
+        if weights is not None:
             # TODO: Check for weights size?
             self._coerce_dtype(weights.dtype)
         for i, binning in enumerate(self._binnings):
